@@ -10,7 +10,9 @@ META = {
     "rule": "P1 every assert!/bump precondition holds in every reachable context; P2 every loop consumes a "
             "token per iteration; P3 no recursion cycle without consumption; P4 fuel exceeds the largest "
             "number of look-aheads between two consumptions; P5 nesting depth / return-path look-ahead is "
-            "bounded; P7 every opened mark is finished exactly once; M the seven leaf primitives have the "
+            "bounded; P6 every other panic-capable construct reachable from parse_module in crate syntax is "
+            "discharged by a rule or reviewed with its guard signature, and the lexer callback advances logos by "
+            "a byte length; P7 every opened mark is finished exactly once; M the seven leaf primitives have the "
             "modelled shape. One obligation per site; non-trivial = decided by the abstract interpreter.",
     "explanation": "Engine P interprets the MIR of every function of syntax::parser on a nondeterministic token "
                    "oracle (the current token is one of the 66 kinds the lexer can deliver or EOF; it is refined "
@@ -192,6 +194,9 @@ def p6_inventory(F, res, R):
                 res.ob("P6", full, desc, False, where=f.loc(ln), how="panic-capable construct reachable from parse_module, neither discharged nor reviewed"
                        if not rv else "the conditions guarding this reviewed site changed since review")
     res.floor("other panic-capable sites reachable from parse_module in crate syntax", n, 20)
+    # the one lexer callback advances logos' Lexer, whose bump() panics past the end / inside a character
+    from rules import c01
+    c01.lexer_bump_unit(F, res, rule="P6")
 
 
 def depth_guard(F):
